@@ -6,6 +6,10 @@ props = [json.loads(l) for l in open(os.path.join(V, 'properties.jsonl'))]
 
 # id -> (level, engine, technique, level text, level note, design_ref)
 CHECKS = {
+ 'C11': ('model_checking', 'E1-sched', 'stateless DFS over all arrival permutations of split index-file reads of the real Diamond.Commit in a synctest bubble, for every content assignment x mode; specification oracle + differential across orders',
+         'Every assignment of {absent,h1,h2(,h3)} to (split,path) for 1..3 splits x 2 paths (4 splits x 1 path) x 4 modes x both ID orders; for each, every permutation of index-file arrivals is executed on the real commit code and compared with the merge specification and with each other.',
+         'One index file per split (splits of <1000 files); upload times strictly increasing by one fake second; known findings listed in known_findings.json are reported, not failed.',
+         'DESIGN.md §3 C11'),
  'C02': ('model_checking', 'E2-seq + E1-sched', 'exhaustive product + all Put histories (depth<=3) on the real cafs with an independent Python BLAKE2b tree oracle; stateless DFS over all completion orders of parallel leaf flushes and over 2-client interleavings (preemption-bounded)',
          'Keys of every enumerated (content, leaf size) are recomputed by CPython hashlib.blake2b in tree mode (validated on the docs/blake2.md examples); key independence from chunking / flush concurrency / store content / flush completion order is decided by exhaustive enumeration, not sampling.',
          'Content alphabet is structured patterns; flush orders explored for up to 4-5 full leaves; concurrent Puts bounded to 2 (thorough 3) preemptions.',
